@@ -58,15 +58,29 @@ def Shape.width (s : Shape) : Int :=
   | .not_ => 40 | .bit => 20 | .range => 20 | .mux2 => 20 | .inPort => 15 | .outPort => 15 | .inOutPort => 20
   | .pass => 20 | .fbStart => 20 | .fbStop => 20 | .missing => 30
 
+/-- LogicSymbol.getHeight: room for the longer of the two port lists -/
+def Shape.genericHeight (s : Shape) : Int := namemargin + 2 * portmargin + (max s.ins.length s.outs.length : Nat) * portpitch
+
 def Shape.height (s : Shape) : Int :=
   match s.cls with
-  | .inst | .reg => namemargin + 2 * portmargin + (max s.ins.length s.outs.length : Nat) * portpitch
-  | .scope => 80 | .buf => 20 | .binop => 50 + namemargin
+  | .inst | .reg => s.genericHeight
+  | .scope => max 80 s.genericHeight                                  -- repaired in /repo 0891c9c (was: 80)
+  | .buf => 20 | .binop => 50 + namemargin
   | .and_ | .or_ => namemargin + 20 * (s.ins.length : Int)          -- self.h = 20 * nins
   | .nor | .xor => namemargin + 40
   | .not_ => 30 | .bit => 20 | .range => 20 | .mux2 => namemargin + 20 * 3
   | .inPort => 20 | .outPort => 20 | .inOutPort => 20
   | .pass => 20 | .fbStart => 20 | .fbStop => 20 | .missing => 22
+
+/-- HISTORY (defect C18-scope-pin-below-box, fixed by /repo 0891c9c): before the repair ScopeSymbol.getHeight returned 80 whatever
+    the number of inputs -/
+def oldScopeHeight : Int := 80
+
+/-- the height function of the tree BEFORE 0891c9c -/
+def Shape.oldHeight (s : Shape) : Int :=
+  match s.cls with
+  | .scope => oldScopeHeight
+  | _ => s.height
 
 /-- y of port number `sel` of a LogicSymbol -/
 def genericY (sel : Nat) : Int := namemargin + portmargin + (sel : Int) * portpitch + instanceportheight / 2
@@ -163,10 +177,14 @@ def slack : Int := 3
 def Shape.InBox (s : Shape) : Prop :=
   ∀ p pt, s.valid p → s.pos p = some pt → 0 ≤ pt.1 ∧ pt.1 ≤ s.width ∧ 0 ≤ pt.2 ∧ pt.2 ≤ s.height + slack
 
-/-- the port counts for which that holds: ScopeSymbol has a fixed height of 80 but one pin every 28 pixels -/
+/-- the same statement for the height function before 0891c9c -/
+def Shape.OldInBox (s : Shape) : Prop :=
+  ∀ p pt, s.valid p → s.pos p = some pt → 0 ≤ pt.1 ∧ pt.1 ≤ s.width ∧ 0 ≤ pt.2 ∧ pt.2 ≤ s.oldHeight + slack
+
+/-- the port counts for which that holds (since 0891c9c no condition on ScopeSymbol; every remaining condition is implied by
+    `Realizable`: a Buf has one port each side, the round symbol at most two outputs, a port symbol draws one port) -/
 def Shape.Tidy (s : Shape) : Prop :=
   match s.cls with
-  | .scope => s.ins.length ≤ 3 ∧ s.outs.length ≤ 3
   | .buf => s.ins.length ≤ 1 ∧ s.outs.length ≤ 1
   | .binop => s.outs.length ≤ 2
   | .inst => 0 ≤ s.iw
@@ -211,7 +229,6 @@ def Shape.realizableB (s : Shape) : Bool :=
 
 def Shape.tidyB (s : Shape) : Bool :=
   match s.cls with
-  | .scope => s.ins.length ≤ 3 && s.outs.length ≤ 3
   | .buf => s.ins.length ≤ 1 && s.outs.length ≤ 1
   | .binop => s.outs.length ≤ 2
   | .inst => 0 ≤ s.iw
